@@ -342,7 +342,7 @@ def analytic_flow_check(indict, marker, solvers, seed, hsym="__h"):
         try:
             u0 = U(0, st0)
             for v, x in zip(svars, xs):
-                if abs(u0[v] - pt[x]) > sympy.Float("1e-11") * (1 + abs(pt[x])):
+                if abs(u0[v] - pt[x]) > sympy.Float("1e-7") * (1 + abs(pt[x])):
                     out["problems"].append({"law": "identity at h=0", "variable": v, "got": str(u0[v]), "want": str(pt[x])})
             u1 = U(h1, st0)
             d = dict(pt)
@@ -352,12 +352,12 @@ def analytic_flow_check(indict, marker, solvers, seed, hsym="__h"):
                 st = dict(pt)
                 st.update({x: u1[w] for w, x in zip(svars, xs)})
                 rhs = sympy.N(ps["rhs"][v].subs(st), 45)
-                if abs(lhs - rhs) > sympy.Float("1e-11") * (1 + abs(rhs)):
+                if abs(lhs - rhs) > sympy.Float("1e-7") * (1 + abs(rhs)):
                     out["problems"].append({"law": "d/dh update = rhs(updated state)", "variable": v, "got": str(lhs), "want": str(rhs), "h": str(h1)})
             u12 = U(h1 + h2, st0)
             u2 = U(h2, {x: u1[w] for w, x in zip(svars, xs)})
             for v in svars:
-                if abs(u12[v] - u2[v]) > sympy.Float("1e-11") * (1 + abs(u12[v])):
+                if abs(u12[v] - u2[v]) > sympy.Float("1e-7") * (1 + abs(u12[v])):
                     out["problems"].append({"law": "step(h1) then step(h2) = step(h1+h2)", "variable": v, "got": str(u2[v]), "want": str(u12[v])})
         except Exception as e:
             out.setdefault("eval_errors", []).append(type(e).__name__ + ": " + str(e)[:120])
